@@ -174,6 +174,9 @@ def onEvent (s : St) (b : Book) (o : Obs) (b' : Book) : St × List Viol :=
   | .call _ _ (.tune n) =>
     let l := limOf s.cpus n
     ({ s with lims := l :: s.lims, mx := s.mx.map (fun (k, m) => (k, max m l)) }, [])
+  | .ret _ _ (.tune n) (.tune .none 0) =>
+    -- a positive limit was asked for and the worker now reports limit 0
+    (s, if n ≥ 1 then [s!"TunePool({n}) returned nil but concurrency {n} maps to limit 0: no job can be dispatched any more"] else [])
   | .ret _ _ (.tune n) (.tune e c) =>
     -- the call is over: the limit is now exactly what NumConcurrency reported, unless another tune is in progress
     if b'.anyOpen (fun c => match c with | .tune _ => true | _ => false) then (s, [])
